@@ -27,3 +27,15 @@ Definition phase_one_done (own_distinct : bool) (k : nat) (tr : list src) : bool
 Definition fired (i : nat) (tr : list src) : bool :=
   existsb (fun s => match s with Own j => j =? i | Foreign _ => false end) tr.
 Definition all_fired (k : nat) (tr : list src) : bool := forallb (fun i => fired i tr) (seq 0 k).
+
+(* ---- one accumulator per activation ----
+   A sub-process is entered again and again; each activation has a monitor of its own. The list of start events that
+   have fired is either made afresh by every monitor ([fresh] = true: a variable of the monitor's closure, Gen/Facts.v
+   src_monitor_accumulator_is_local) or kept by the sub-process across activations. *)
+Definition phase_one_from (acc : list nat) (k : nat) (tr : list src) : bool := length (counted k tr acc) =? k.
+(* the accumulator a monitor starts from in the a-th activation, the earlier activations having seen the traces trs *)
+Fixpoint carried (fresh : bool) (k : nat) (trs : list (list src)) (acc : list nat) : list nat :=
+  match trs with
+  | [] => acc
+  | tr :: r => carried fresh k r (if fresh then [] else counted k tr acc)
+  end.
